@@ -24,6 +24,9 @@ var raceLaneConf = map[string]raceLaneCfg{
 	"C11": {2, 8}, "C12": {2, 16}, "C18": {2, 8}, "C19": {2, 16}, "C20": {2, 16},
 }
 
+// properties whose cases are cheap enough under the detector to double the share in the thorough tier
+var raceLaneCheap = map[string]bool{"C03": true, "C08": true, "C11": true, "C18": true, "C19": true}
+
 func inRaceLane() bool { return os.Getenv("VERIF_RACE_LANE") == "1" }
 
 func (c *Ctx) startRaceLane(timeout time.Duration) chan struct{} {
@@ -39,8 +42,8 @@ func (c *Ctx) startRaceLane(timeout time.Duration) chan struct{} {
 		close(done)
 		return done
 	}
-	if !c.Quick() && cfg.div > 2*cfg.procs {
-		cfg.div /= 2 // the thorough tier runs a larger share under the detector
+	if !c.Quick() && cfg.div > 2*cfg.procs && raceLaneCheap[c.Prop] {
+		cfg.div /= 2 // the thorough tier runs a larger share under the detector where that stays within minutes
 	}
 	go func() {
 		defer close(done)
